@@ -145,7 +145,8 @@ class RtdScaling(object):
         r_t = _adjust_for_lead_resistance(
             r_t, CURRENT_EXCITATION, self.resistance_configuration, self.lead_wire_resistance)
 
-        positive_temperature = r_t >= r_0
+        # Allow for rounding error in the resistance at zero degrees
+        positive_temperature = r_t >= r_0 * (1.0 - 1e-12)
         # First solve for positive temperatures using the quadratic form
         temperature = (-a + np.sqrt(a ** 2 - 4.0 * b * (1.0 - r_t / r_0), where=positive_temperature)) / (2.0 * b)
         if not np.all(positive_temperature):
